@@ -32,7 +32,8 @@ func genC02Race(t *rapid.T) *Scenario {
 	sc := &Scenario{Prop: "C02"}
 	for i := 0; i < 3; i++ {
 		set := SetSpec{Phases: []PhaseSpec{{Name: "p0", Class: rapid.SampledFrom([]string{"", engine.ClassDefault}).Draw(t, "class"),
-			Objs: []ObjSpec{{Pool: 0, Variant: i, CP: rapid.SampledFrom([]string{"", "", "IfNoController"}).Draw(t, "cp")}}}}}
+			Objs: []ObjSpec{{Pool: 0, Variant: i, CP: rapid.SampledFrom([]string{"", "", "IfNoController"}).Draw(t, "cp"),
+				Special: rapid.SampledFrom([]string{"", "", "", "revanno"}).Draw(t, "special")}}}}}
 		if rapid.IntRange(0, 2).Draw(t, "second") == 0 {
 			set.Phases[0].Objs = append(set.Phases[0].Objs, ObjSpec{Pool: 1, Variant: i})
 		}
@@ -69,7 +70,8 @@ func genC02Race(t *rapid.T) *Scenario {
 
 func TestC02(t *testing.T) {
 	st := NewStats("C02", "engine", "scenario = chains of 1-3 hand-made revisions sharing/adding/dropping pool objects (local + delegated phases, both owner strategies), arbitrary interleaving of their reconciles with pause/archive/delete mid-handover and third-party re-owning; non-trivial = at least one adoption write happened and a lower revision was reconciled afterwards")
-	opts := SetGenOpts{AllowClass: true, Classes: []string{engine.ClassDefault, engine.ClassDefault, engine.ClassRemote}, CPs: []string{"", "", "Prevent", "IfNoController", "None"}, PoolSize: 3, MaxObjs: 3, MaxPhases: 2, ChainBias: true}
+	opts := SetGenOpts{AllowClass: true, Classes: []string{engine.ClassDefault, engine.ClassDefault, engine.ClassRemote}, CPs: []string{"", "", "Prevent", "IfNoController", "None"}, PoolSize: 3, MaxObjs: 3, MaxPhases: 2, ChainBias: true,
+		Specials: []string{"revanno"}, SpecialRate: 6}
 	mk := func(sc *Scenario) (*Runner, *C02Monitor) {
 		m := &C02Monitor{}
 		return NewRunner(sc, m), m
